@@ -14,7 +14,10 @@ def chunk(xs, n):
 def selftest(module, recs, corrupt):
     """`corrupt(records)` returns (index, clause): it must modify exactly that record so that it is rejected."""
     probe = copy.deepcopy(recs)
-    idx, clause = corrupt(probe)
+    try:
+        idx, clause = corrupt(probe)
+    except StopIteration:
+        return        # no record of the kind the probe corrupts among the answers of the implementation: nothing to probe (the answers are judged below)
     v, _ = tlc.validate_traces(module, [probe], shards=1)
     if v[0].accepted or [idx + 1, clause] not in v[0].fails:
         raise MachineryError(f'binding self-test failed for {module}: corrupted record {idx} -> {v[0]}')
